@@ -30,9 +30,13 @@ def run_tool(fn, text, *args, **kw):
         i, o = os.path.join(d, "in.csv"), os.path.join(d, "out.csv")
         with open(i, "w") as f:
             f.write(text)
-        with Quiet():
-            fn(i, o, *args, **kw)
-        return open(o).read()
+        try:
+            with Quiet():
+                fn(i, o, *args, **kw)
+            return open(o).read()
+        except (SystemExit, Exception) as e:
+            # the tool refused or crashed on a valid input: that is an observation, not a harness problem
+            return f"TOOL-FAILED {type(e).__name__}: {e}"
     finally:
         shutil.rmtree(d, ignore_errors=True)
 
@@ -76,6 +80,8 @@ def snap_case(args):
         out2 = run_tool(tools.snap_command, out1, tps)
     except BaseException as e:
         return dict(n=n, viol=[("snap-raised", f"{type(e).__name__}: {e}", dict(tps=tps, lo=lo))], states=set())
+    if out1.startswith("TOOL-FAILED") or out2.startswith("TOOL-FAILED"):
+        return dict(n=n, viol=[("snap-raised", (out1 if out1.startswith("TOOL-FAILED") else out2), dict(tps=tps, lo=lo))], states=set())
     r0, r1, r2 = rows_of(text), rows_of(out1), rows_of(out2)
     if len(r0) != len(r1):
         viol.append(("row-count", f"{len(r0)} rows in, {len(r1)} out", dict(tps=tps)))
@@ -132,6 +138,8 @@ def jitter_text(arrs):
 
 def judge_jitter(text, out, delta, what):
     viol = []
+    if out.startswith("TOOL-FAILED"):
+        return [("tool-refused-valid-input", f"jitter with delta {delta}: {out}", what)]
     r0, r1 = rows_of(text), rows_of(out)
     g0 = group(r0)
     g1 = group(r1)
